@@ -19,6 +19,20 @@ def repo_generator_game(rng, n, names):
     return [float(x) for x in g.get_values()], f"{name}@{seed}"
 
 
+def magnitude_variant(rng, n, v, src, allow_offset=True):
+    """The statements are invariant under positive scaling and (superadditive class) under adding an additive game; code
+    that compares with absolute or value-relative tolerances is not.  Returns an exactly representable variant of an exact
+    game: multiplied by 2^-40 / 2^-30 / 2^20, or (allow_offset) plus 3,000,000 per member."""
+    from fractions import Fraction
+    r = rng.random()
+    if r < 0.10:
+        k = rng.choice([Fraction(1, 2 ** 40), Fraction(1, 2 ** 30), Fraction(2 ** 20)])
+        return [k * Fraction(x) for x in v], src + f" x{float(k):g}"
+    if r < 0.20 and allow_offset:
+        return [Fraction(x) + 3_000_000 * games.popcount(i) for i, x in enumerate(v)], src + " +3e6|S|"
+    return v, src
+
+
 SA_GENS = ["factory", "factory_square", "noisy_factory", "noisy_factory_square", "graph_cycle", "graph_random",
            "factory_cheerleader_next", "xos", "xs", "oxs", "k_budget_generator", "covg_fn_generator"]
 SAM_GENS = ["xos", "xos2", "xos12", "xs", "xs3", "oxs", "k_budget_generator", "covg_fn_generator"]
@@ -69,6 +83,8 @@ def make_cases(ctx, comps, klass="sa", plan=None):
                     stream = "float"
             if len(v) != 2 ** n:
                 continue
+            if stream == "exact" and klass in ("sa", "sam"):
+                v, src = magnitude_variant(rng, n, v, src, allow_offset=(klass == "sa"))
             if kmode == "all":
                 Ks = list(games.all_knowledge_sets(n))
             else:
@@ -256,11 +272,14 @@ def run_histories(ctx, comps, klass, plan, oracles, alt=False, fresh_check=False
         for _ in range(count):
             def draw():
                 if klass == "sa":
-                    return games.sa_closure_game(rng, n, rng.choice(["int", "dyadic"]))
-                return games.sam_game(rng, n, rng.choice(["int", "dyadic"]))
+                    g0 = games.sa_closure_game(rng, n, rng.choice(["int", "dyadic"]))
+                else:
+                    g0 = games.sam_game(rng, n, rng.choice(["int", "dyadic"]))
+                return magnitude_variant(rng, n, g0, "", allow_offset=(klass == "sa"))[0]
             v = draw()
             v2 = draw() if alt else None
-            comp = rng.choice(comps)
+            # beyond 8 players the point is the memoised structure: prefer the computers that use it
+            comp = rng.choice([c for c in comps if c != "superadditive"] or comps) if n >= 9 else rng.choice(comps)
             ops, K, cur = random_history(rng, n, v, comp, rng.randint(1, length), v2)
             hs.append((n, v, comp, ops, K))
     outs = run_driver_parallel([opslib.ops_line(n, ops) for (n, v, comp, ops, K) in hs])
